@@ -1,6 +1,6 @@
 (* drv_c10.ml -- model side of the C10 cases (taskx delayed queue, models/Delayed.v).
 
-   Case:  c10m caps=<cap><e|s>,... pq=<0|1> P=<period> t0=<start> tickpos=<n> EV...
+   Case:  c10m caps=<cap><e|s>,... pq=<0 sorted list|1 sorted list, opposite tie order|2 container/heap> P=<period> t0=<start> tickpos=<n> EV...
    EV (raw timed happenings, in history order, chosen by the python check from the script):
      R:<id>:<trig>:<q>   a request reaches the loop's channel (trig = send instant + delay)
      T:<now>             the ticker fires at now
@@ -23,7 +23,7 @@ exception Stuck of string
 let split_on c s = String.split_on_char c s
 
 let run_c10 (toks : string list) : string =
-  let caps = ref [] and modes = ref [] and front = ref false in
+  let caps = ref [] and modes = ref [] and front = ref 0 in
   let period = ref (z_of_string "1000000000") and t0 = ref Z0 and tickpos = ref 0 in
   let raw = ref [] and dump = ref false in
   List.iter (fun t ->
@@ -35,12 +35,12 @@ let run_c10 (toks : string list) : string =
         caps := !caps @ [(z_of_int i, nat_of_int (int_of_string (String.sub c 0 (n - 1))))];
         modes := !modes @ [c.[n - 1]]) l
     end
-    else if String.length t > 3 && String.sub t 0 3 = "pq=" then front := (t = "pq=1")
+    else if String.length t > 3 && String.sub t 0 3 = "pq=" then front := int_of_string (String.sub t 3 (String.length t - 3))
     else if String.length t > 2 && String.sub t 0 2 = "P=" then period := z_of_string (String.sub t 2 (String.length t - 2))
     else if String.length t > 3 && String.sub t 0 3 = "t0=" then t0 := z_of_string (String.sub t 3 (String.length t - 3))
     else if String.length t > 8 && String.sub t 0 8 = "tickpos=" then tickpos := int_of_string (String.sub t 8 (String.length t - 8))
     else raw := !raw @ [t]) toks;
-  let impl = dl_pick !front in
+  let impl = dl_pick (nat_of_int !front) in
   let st = ref (dl_init impl !caps) in
   let eff = ref [] in          (* effective history, reversed *)
   let outs = ref [] in         (* all outputs, reversed chunks *)
